@@ -6,7 +6,10 @@
 //	          runtime registry with a prefix provider and with one single-value provider per
 //	          record, the injected config database (thorough: also badger); for the modifying
 //	          access paths also an injected hashmap whose look-up of the record fails once with
-//	          a generic error during the access
+//	          a generic error, or with database.ErrShuttingDown, during the access
+//	race      one forced interleaving on a hashmap of its own: a privileged actor holds the
+//	          lock of the unmarked live record, the reader's query (3 shapes) is observed
+//	          waiting for that lock, the record is marked under the lock, the lock released
 //	flags     none, secret, crown jewel, both
 //	marking   how the privileged side marks the record: a Put of a flagged record, a Put
 //	          through an interface with AlwaysMakeSecret/AlwaysMakeCrownjewel, a plain Put
@@ -288,6 +291,7 @@ type faultStore struct {
 	storage.Interface
 	mu    sync.Mutex
 	armed map[string]bool
+	err   error // what an armed look-up fails with
 }
 
 func (f *faultStore) Injected() bool { return true }
@@ -298,7 +302,7 @@ func (f *faultStore) Get(key string) (record.Record, error) {
 	delete(f.armed, key)
 	f.mu.Unlock()
 	if hit {
-		return nil, errInjectedFault
+		return nil, f.err
 	}
 	return f.Interface.Get(key)
 }
@@ -404,9 +408,13 @@ func setup(c *vlib.Ctx, withBadger bool) error {
 		b := &backend{kind: "runtime-single", db: name, singleReg: reg}
 		backends[b.id()] = b
 	}
-	// injected hashmap whose look-ups can be armed to fail
-	{
-		name := "c03-hashmap-fault"
+	// injected hashmaps whose look-ups can be armed to fail: with a generic error, and with
+	// database.ErrShuttingDown (a storage that is being closed)
+	for _, fk := range []struct {
+		kind string
+		err  error
+	}{{"hashmap-fault", errInjectedFault}, {"hashmap-fault-shutdown", database.ErrShuttingDown}} {
+		name := "c03-" + fk.kind
 		if _, err := database.Register(&database.Database{Name: name, Description: "C03 faulty storage", StorageType: database.StorageTypeInjected}); err != nil {
 			return err
 		}
@@ -414,11 +422,23 @@ func setup(c *vlib.Ctx, withBadger bool) error {
 		if err != nil {
 			return err
 		}
-		fs := &faultStore{Interface: hm, armed: map[string]bool{}}
+		fs := &faultStore{Interface: hm, armed: map[string]bool{}, err: fk.err}
 		if _, err := database.InjectDatabase(name, fs); err != nil {
 			return err
 		}
-		b := &backend{kind: "hashmap-fault", db: name, fault: fs}
+		b := &backend{kind: fk.kind, db: name, fault: fs}
+		backends[b.id()] = b
+	}
+	// a hashmap database of its own for the "marked under the record lock" scenario
+	{
+		name := "c03-hashmap-race"
+		if _, err := database.Register(&database.Database{Name: name, Description: "C03 hashmap, locked re-flag", StorageType: "hashmap"}); err != nil {
+			return err
+		}
+		if _, err := database.VerifController(name); err != nil {
+			return err
+		}
+		b := &backend{kind: "hashmap-race", db: name}
 		backends[b.id()] = b
 	}
 	// injected config database
@@ -722,7 +742,7 @@ func runCell(cell Cell, idx int64) (res result) {
 		res.engineErr = "unknown backend " + cell.Backend
 		return res
 	}
-	if b.kind == "hashmap" || b.kind == "hashmap-fault" {
+	if b.kind == "hashmap" || b.fault != nil {
 		b.serial.Lock()
 		defer b.serial.Unlock()
 	}
@@ -1303,7 +1323,7 @@ func runCell(cell Cell, idx int64) (res result) {
 	arm := func() {
 		if b.fault != nil {
 			b.fault.arm(tKey, accKey)
-			res.trace = append(res.trace, "storage armed: the next Get of the key fails with a generic error")
+			res.trace = append(res.trace, fmt.Sprintf("storage armed: the next Get of the key fails with %q", b.fault.err))
 		}
 	}
 	disarm := func() {
@@ -1371,8 +1391,155 @@ func filterStale(cell Cell, res *result) []obs {
 	return keep
 }
 
+// ---------- marked under the record lock while a query waits for that lock ----------
+
+// queryBlockedOnRecordLock reports whether a goroutine of this process is inside
+// sync.(*Mutex).Lock called from the hashmap query executor, i.e. the executor has reached a
+// record whose lock is held by someone else. (A state observation through the goroutine
+// dump; the scenario runs while nothing else queries a hashmap.)
+func queryBlockedOnRecordLock() bool {
+	buf := make([]byte, 8<<20)
+	n := runtime.Stack(buf, true)
+	for _, g := range strings.Split(string(buf[:n]), "\n\n") {
+		i := strings.Index(g, "sync.(*Mutex).Lock")
+		j := strings.Index(g, "hashmap.(*HashMap).queryExecutor")
+		if i >= 0 && j > i {
+			return true
+		}
+	}
+	return false
+}
+
+// runRaceCell: on a hashmap (which stores the live record objects) a privileged actor holds
+// the lock of the unmarked record t; a query of the reader is started and reaches t, where it
+// has to wait for the lock; the actor marks t under the lock and releases it. Whatever the
+// query delivers after that is delivered while t is marked. Marking: "locked-reflag".
+func runRaceCell(cell Cell) (res result) {
+	res.cell = cell
+	b := backends["hashmap-race/false"]
+	if b == nil {
+		res.engineErr = "no hashmap-race backend"
+		return res
+	}
+	tKey, nKey := "r/race/t", "r/race/n"
+	fullT, fullN := b.db+":"+tKey, b.db+":"+nKey
+	st, err := database.VerifStorage(b.db)
+	if err != nil {
+		res.engineErr = err.Error()
+		return res
+	}
+	defer func() {
+		_ = st.Delete(tKey)
+		_ = st.Delete(nKey)
+	}()
+	step := func(name string, err error) error {
+		res.calls++
+		res.trace = append(res.trace, name+" -> "+errClass(err))
+		return err
+	}
+	W := privileged
+	if err := step("W.Put(n=v2)", W.Put(newRec(cell.Rec, fullN, "v2"))); err != nil {
+		res.engineErr = fmt.Sprintf("%s: %v", cell, err)
+		return res
+	}
+	if err := step("W.Put(t=v2)", W.Put(newRec(cell.Rec, fullT, "v2"))); err != nil {
+		res.engineErr = fmt.Sprintf("%s: %v", cell, err)
+		return res
+	}
+	live, err := st.Get(tKey)
+	if err != nil {
+		res.engineErr = fmt.Sprintf("%s: %v", cell, err)
+		return res
+	}
+	reader := database.NewInterface(&database.Options{Local: cell.Local, Internal: cell.Internal})
+	var q *query.Query
+	switch cell.Path {
+	case "Query-prefix":
+		q = query.New(b.db + ":r/race/")
+	case "Query-key":
+		q = query.New(fullT)
+	case "Query-cond":
+		q = query.New(b.db + ":r/race/").Where(query.Where("Value", query.SameAs, "v2"))
+	default:
+		res.engineErr = "runRaceCell: unknown path " + cell.Path
+		return res
+	}
+	res.denied = (cell.secret() && !cell.Internal) || (cell.crown() && !cell.Local)
+
+	live.Lock()
+	res.trace = append(res.trace, "the privileged actor holds the lock of t")
+	type qres struct {
+		seen []obs
+		sawN bool
+		err  error
+	}
+	done := make(chan qres, 1)
+	go func() {
+		var out qres
+		it, err := reader.Query(q)
+		if err != nil {
+			out.err = err
+			done <- out
+			return
+		}
+		for r := range it.Next {
+			switch r.Key() {
+			case fullT:
+				out.seen = append(out.seen, observe(r, "query"))
+			case fullN:
+				out.sawN = true
+			}
+		}
+		out.err = it.Err()
+		done <- out
+	}()
+	res.calls++
+	forced := false
+	deadline := time.Now().Add(guardWait)
+	for {
+		if queryBlockedOnRecordLock() {
+			forced = true
+			break
+		}
+		if time.Now().After(deadline) {
+			break // not observed: the cell is then not counted as exercising the scenario
+		}
+		runtime.Gosched()
+	}
+	res.trace = append(res.trace, fmt.Sprintf("reader.Query(%s) started; executor waits for the lock of t: %v", cell.Path, forced))
+	if cell.secret() {
+		live.Meta().MakeSecret()
+	}
+	if cell.crown() {
+		live.Meta().MakeCrownJewel()
+	}
+	res.trace = append(res.trace, "t marked "+cell.Flags+" under its lock; lock released")
+	live.Unlock()
+	out := <-done
+	res.trace = append(res.trace, "query finished -> "+errClass(out.err))
+	res.witnessOK = out.sawN
+	res.success = len(out.seen) > 0
+	res.faultHit = forced // reused: the forced state was reached
+	res.outcome = "query-done-" + errClass(out.err)
+	if res.denied {
+		for _, o := range out.seen {
+			o.Path = cell.Path
+			res.leaks = append(res.leaks, o)
+			res.trace = append(res.trace, fmt.Sprintf("reader saw %s value=%q secret=%v crown=%v via %s", o.Key, o.Value, o.Secret, o.Crown, o.Via))
+		}
+	}
+	return res
+}
+
 func safeRunCell(cell Cell, idx int64) result {
 	var res result
+	if cell.Marking == "locked-reflag" {
+		if p, stack := vlib.Catch(func() { res = runRaceCell(cell) }); p != nil {
+			res.cell = cell
+			res.panicked = fmt.Sprintf("%v at %s", p, vlib.PanicSite(stack))
+		}
+		return res
+	}
 	if p, stack := vlib.Catch(func() { res = runCell(cell, idx) }); p != nil {
 		res.cell = cell
 		res.panicked = fmt.Sprintf("%v at %s", p, vlib.PanicSite(stack))
@@ -1430,8 +1597,11 @@ func judge(c *vlib.Ctx, r result) (violated bool) {
 		if r.cell.Alias != "" {
 			v.site += "@alias-key"
 		}
-		if r.cell.Backend == "hashmap-fault" {
+		if strings.HasPrefix(r.cell.Backend, "hashmap-fault") {
 			v.site += "@lookup-fault"
+		}
+		if r.cell.Marking == "locked-reflag" {
+			v.site += "@marked-under-record-lock"
 		}
 		w := witness{Cell: r.cell, Trace: r.trace}
 		if v.mod {
@@ -1450,8 +1620,11 @@ func violationSigs(r result) []string {
 		if r.cell.Alias != "" {
 			v.site += "@alias-key"
 		}
-		if r.cell.Backend == "hashmap-fault" {
+		if strings.HasPrefix(r.cell.Backend, "hashmap-fault") {
 			v.site += "@lookup-fault"
+		}
+		if r.cell.Marking == "locked-reflag" {
+			v.site += "@marked-under-record-lock"
 		}
 		out = append(out, v.clause+"|"+v.site+"|"+v.disc)
 	}
@@ -1551,23 +1724,28 @@ func main() {
 
 		// wall-clock budget: vlib's default (8 min quick, 40 min thorough) or --budget; a run
 		// that is cut off is reported as not exhaustive
-		c.Rule("a cell is non-trivial if the reader lacks a privilege the record's marks require (the oracle applies) and the same access path succeeds in the same group for the unmarked record with a fully privileged reader (API paths: for the unmarked record)")
+		c.Rule("a cell is non-trivial if the reader lacks a privilege the record's marks require (the oracle applies) and the same access path succeeds in the same group for the unmarked record with a fully privileged reader (API paths: for the unmarked record); cells of the 'marked under the record lock' scenario (hashmap, three query shapes) additionally only if the query executor was observed waiting for the record's lock before the record was marked")
 		c.Assume("Options.DelayCachedWrites is not combined with a non-privileged interface (documented restriction), so delayed cached writes are not enumerated")
 		c.Assume("a reader whose own cache was filled before the record was marked may be served that outdated, unmarked copy again (documented for Options.CacheSize); such a copy holds nothing that was written while the record was marked and is not counted as disclosure")
 		c.Assume("records of the injected config database cannot carry marks (Option.Export creates fresh metadata on every read); there the marks are what the privileged read-back shows")
+		c.Assume("one interleaving is forced in-process without engine S: on the hashmap backend a privileged actor holds the lock of an unmarked live record, a reader's query is started and observed (goroutine dump) waiting for that lock, the actor marks the record under the lock and releases it; the record must then not be listed for a reader the marks exclude")
 		c.Assume("schedule-dependent effects (a fed live object of the hashmap/runtime backends that is marked after it was fed, replies marshalled late by the API goroutines) belong to engine S and are left out: feeds are opened after all writes of unmarked content")
 
 		// groups, ordered so that neighbouring work items hit different backends
 		var bks []*backend
-		var faultBk *backend
+		var faultBks []*backend
 		for _, b := range backends {
 			if b.fault != nil {
-				faultBk = b // only used for the modifying access paths, see (a'')
+				faultBks = append(faultBks, b) // only used for the modifying access paths, see (a'')
 				continue
+			}
+			if b.kind == "hashmap-race" {
+				continue // only used by runRaceCell
 			}
 			bks = append(bks, b)
 		}
 		sort.Slice(bks, func(i, j int) bool { return bks[i].id() < bks[j].id() })
+		sort.Slice(faultBks, func(i, j int) bool { return faultBks[i].id() < faultBks[j].id() })
 		recs := []string{"wrapper", "struct"}
 		depths := []int{1, 2}
 		caches := []string{"none", "cold", "warm-get", "warm-put"}
@@ -1662,7 +1840,9 @@ func main() {
 						if isAPI && cache != "none" {
 							continue
 						}
-						groups = append(groups, group{backend: faultBk, rec: rec, depth: depth, cache: cache, path: path})
+						for _, fb := range faultBks {
+							groups = append(groups, group{backend: fb, rec: rec, depth: depth, cache: cache, path: path})
+						}
 					}
 				}
 			}
@@ -1696,6 +1876,64 @@ func main() {
 				}
 			}
 		}
+
+		// (c) marked under the record lock while a query waits for it: runs first and alone,
+		// so that the only hashmap query executor in the process is the cell's own
+		nRace, nRaceForced := 0, 0
+		for _, rec := range recs {
+			for _, path := range []string{"Query-prefix", "Query-key", "Query-cond"} {
+				controlOK := false
+				var rs []result
+				for _, fl := range []string{"none", "secret", "crown", "both"} {
+					for _, p := range privs {
+						cell := Cell{Backend: "hashmap-race", Rec: rec, Depth: 1, Flags: fl, Marking: "locked-reflag", Local: p[0], Internal: p[1], Cache: "none", Path: path}
+						r := safeRunCell(cell, 0)
+						rs = append(rs, r)
+						if fl == "none" && p[0] && p[1] && r.success {
+							controlOK = true
+						}
+					}
+				}
+				for _, r := range rs {
+					nRace++
+					c.Add(1, r.calls, 1)
+					if r.engineErr != "" {
+						c.EngineError("%s", r.engineErr)
+						continue
+					}
+					if r.panicked != "" {
+						c.ExtraAdd("panics_in_portbase_code", 1)
+						fmt.Fprintf(os.Stderr, "note: panic in cell %s: %s\n", r.cell, r.panicked)
+						continue
+					}
+					class := "allowed"
+					if r.denied {
+						class = "denied"
+					}
+					oc := fmt.Sprintf("%s@marked-under-record-lock/%s/%s", r.cell.Path, class, r.outcome)
+					if r.faultHit {
+						oc += "/executor-waited-for-the-lock"
+						nRaceForced++
+					}
+					if r.denied && r.witnessOK {
+						oc += "/sibling-seen"
+					}
+					if r.success {
+						oc += "/record-seen"
+					}
+					c.Outcome(oc)
+					judge(c, r)
+					if r.denied && controlOK && r.faultHit {
+						c.Nontrivial(r.cell.String())
+					}
+					if r.cell.Flags == "secret" && r.cell.Local && !r.cell.Internal && r.cell.Rec == "wrapper" && r.cell.Path == "Query-prefix" {
+						c.Sample(map[string]any{"cell": r.cell, "privilege_missing": r.denied, "outcome": r.outcome, "trace": r.trace})
+					}
+				}
+			}
+		}
+		c.Extra("cells_marked_under_record_lock", nRace)
+		c.Extra("cells_marked_under_record_lock_with_waiting_executor_observed", nRaceForced)
 
 		// The groups run in parallel; what they found is merged afterwards in the fixed
 		// order of the enumeration, so that counts, first witnesses and samples do not
